@@ -146,6 +146,9 @@ func (c *ClusterNode) sendShardFile(destination string, path string) error {
 		if err != nil && err != io.EOF {
 			return fmt.Errorf("failed to read shard file: %w", err)
 		}
+		if err := verifSyncFault("send", i); err != nil {
+			return err
+		}
 		req := RPCSendShardRequest{
 			RPCRequestArgs: RPCRequestArgs{
 				Source: c.MyHostname,
@@ -275,6 +278,9 @@ func (c *ClusterNode) Sync() error {
 	c.logger.Info().Strs("servers", c.Servers).Str("myhostname", c.MyHostname).Msg("syncing cluster node state")
 	if err := c.syncUserCollections(); err != nil {
 		return fmt.Errorf("failed to sync user collections: %w", err)
+	}
+	if err := verifSyncFault("phase", 0); err != nil {
+		return err
 	}
 	if err := c.syncShards(); err != nil {
 		return fmt.Errorf("failed to sync shards: %w", err)
